@@ -333,4 +333,35 @@ func init() {
 		}
 		props["C11"] = p
 	}
+
+	// ---- C07 ----
+	{
+		p := &Prop{ID: "C07", Outside: []string{
+			"how yaml.v3 assigns line/column to nodes (multi-line, escaped or block scalars): node positions are symbolic inputs here",
+			"non-ASCII text before the diagnosed construct (columns count characters); filler bytes NUL, '$', CR, LF",
+			"malformed expressions other than the 10 of the table (their offending-token offsets are fixed by hand and confirmed natively); lexer errors at end of input",
+			"strings with more than two placeholders",
+		}}
+		for L := 0; L <= 3; L++ {
+			p.Quick = append(p.Quick, HRun{Entry: "HarnessC07Lex", Args: []int64{int64(L)}, Bound: "all ASCII strings of length L: token line/column/text against offsets"})
+		}
+		p.Quick = append(p.Quick,
+			HRun{Entry: "HarnessC07Template", Args: []int64{0, 0}, Bound: "no filler; 64-bit symbolic line, column, quoted", Require: []string{"checked"}},
+			HRun{Entry: "HarnessC07Template", Args: []int64{2, 2}, Bound: "2+2 symbolic filler bytes; 64-bit symbolic line, column, quoted; 10 malformed expressions; one or two placeholders", Require: []string{"checked"}},
+			HRun{Entry: "HarnessC07Node", Bound: "unknown key with 64-bit symbolic (line, column) in every fixed-key mapping", Require: []string{"injected"}},
+		)
+		for L := 0; L <= 2; L++ {
+			for _, ref := range []int64{1, 0} {
+				p.Quick = append(p.Quick, HRun{Entry: "HarnessC07Glob", Args: []int64{int64(L), ref}, Bound: "all patterns of length L x symbolic scalar position and quoting"})
+			}
+		}
+		p.Thorough = append(append([]HRun{}, p.Quick...),
+			HRun{Entry: "HarnessC07Lex", Args: []int64{4}, Bound: "all ASCII strings of length 4"},
+			HRun{Entry: "HarnessC07Template", Args: []int64{4, 4}, Bound: "4+4 symbolic filler bytes", Require: []string{"checked"}},
+			HRun{Entry: "HarnessC07Template", Args: []int64{6, 0}, Bound: "6 symbolic filler bytes before the first placeholder", Require: []string{"checked"}},
+			HRun{Entry: "HarnessC07Glob", Args: []int64{3, 1}, Bound: "all ref patterns of length 3"},
+			HRun{Entry: "HarnessC07Glob", Args: []int64{3, 0}, Bound: "all path patterns of length 3"},
+		)
+		props["C07"] = p
+	}
 }
